@@ -64,7 +64,8 @@ CallRoute(dest) ==
     /\ ncalls' = [ncalls EXCEPT ![dest] = 1]
     /\ UNCHANGED <<cfg, done>>
 
-SaltOK(dest, tok) == dest # "local" => (tok.salted /\ ~tok.leak /\ ~tok.foreign)
+\* tok.uuid = the token's UUID occurs (it was forwarded in some form); not forwarding it is fine
+SaltOK(dest, tok) == dest # "local" => (~tok.leak /\ ~tok.foreign /\ (tok.uuid => tok.salted))
 
 Call(dest, tok) == CallRoute(dest) /\ SaltOK(dest, tok)
 
